@@ -249,11 +249,13 @@ theorem atoi_regionEndText (x : Gff) (h : inInt x.regionEnd = true) :
 /-! ### the FASTA section of Build -/
 
 theorem fasta_tail (brk : Nat → Bool) (seq : Str) (h : ∀ c ∈ seq, seqChar c = true) :
-    (∀ l ∈ split '\n' (wrapWith brk 0 seq ++ ['\n']), ∀ c ∈ l, seqChar c = true)
-    ∧ (split '\n' (wrapWith brk 0 seq ++ ['\n'])).flatten = seq := by
+    TailOk (split '\n' (wrapWith brk 0 seq ++ ['\n'])) seq := by
   have hnl : '\n' ∉ seq := fun hm => (seqChar_facts (h _ hm)).1 rfl
-  constructor
-  · intro l hl c hc
+  have hflat : (split '\n' (wrapWith brk 0 seq ++ ['\n'])).flatten = seq := by
+    rw [split_flatten, List.filter_append, wrapWith_filter brk 0 seq hnl]
+    simp
+  have := TailOk.seqlines (split '\n' (wrapWith brk 0 seq ++ ['\n'])) (by
+    intro l hl c hc
     have := split_mem hl c hc
     have hmem : c ∈ wrapWith brk 0 seq := by
       rcases List.mem_append.1 this.1 with hm | hm
@@ -262,9 +264,8 @@ theorem fasta_tail (brk : Nat → Bool) (seq : Str) (h : ∀ c ∈ seq, seqChar 
         exact absurd hm this.2
     rcases wrapWith_mem brk 0 seq c hmem with hm | hm
     · exact h c hm
-    · exact absurd hm this.2
-  · rw [split_flatten, List.filter_append, wrapWith_filter brk 0 seq hnl]
-    simp
+    · exact absurd hm this.2)
+  rwa [hflat] at this
 
 /-! ### slices and 1-based inclusive ranges -/
 
@@ -336,18 +337,22 @@ theorem featLineFacts {f : FeatLine} (h : wfFeatLine f = true) : FeatLineFacts f
   · exact free_not_mem h6 hx
   · exact free_not_mem h7 hx
 
+theorem featText_plain (f : FeatLine) : featText false f = joinSep '\t' [f.seqid, f.source, f.type, itoa f.first, itoa f.last,
+    f.score, f.strand, f.phase, attrText f.attrs] := by
+  simp [featText]
+
 theorem parseFeature_featText {f : FeatLine} (h : wfFeatLine f = true) :
-    parseFeature (featText f) = .ok (denoteFeat f) := by
+    parseFeature (featText false f) = .ok (denoteFeat f) := by
   have hf := featLineFacts h
-  unfold featText
+  rw [featText_plain]
   rw [parseFeature_cols _ _ _ _ _ _ _ _ _ (fun c hc => hf.cols c hc '\t' (by simp)) hf.attrs]
   rw [atoi_itoa hf.first, atoi_itoa hf.last]
   rfl
 
 theorem featText_line {f : FeatLine} (h : wfFeatLine f = true) :
-    featText f ≠ [] ∧ hasPrefix sHash1 (featText f) = false ∧ '\n' ∉ featText f := by
+    featText false f ≠ [] ∧ hasPrefix sHash1 (featText false f) = false ∧ '\n' ∉ featText false f := by
   have hf := featLineFacts h
-  unfold featText
+  rw [featText_plain]
   refine ⟨by simp [joinSep], ?_, ?_⟩
   · rw [joinSep_cons2]
     exact hasPrefix_hash_col _ hf.noHash
@@ -360,20 +365,82 @@ theorem featText_line {f : FeatLine} (h : wfFeatLine f = true) :
         | exact attrText_free hf.attrs (by simp) hc
         | exact hf.cols _ (by simp) '\n' (by simp) hc
 
-theorem midOk_featBlock : ∀ (fs : List FeatLine) (gaps : List Nat), (∀ f ∈ fs, wfFeatLine f = true) →
-    MidOk (featBlock fs gaps) (fs.map denoteFeat)
-  | [], _, _ => by simpa [featBlock] using MidOk.nil
-  | f :: fs, [], h => by
+/-! ### skip lines and interleaving -/
+
+theorem skip_facts {l : Str} (h : wfSkip l = true) :
+    (l = [] ∨ (hasPrefix sHash1 l = true ∧ l ≠ sFasta)) ∧ '\n' ∉ l := by
+  simp only [wfSkip, Bool.or_eq_true, Bool.and_eq_true, bne_iff_ne, ne_eq, List.isEmpty_iff] at h
+  rcases h with h | h
+  · exact ⟨Or.inl h, by simp [h]⟩
+  · exact ⟨Or.inr ⟨h.1.1, h.1.2⟩, free_not_mem h.2 (by simp)⟩
+
+theorem midOk_skips : ∀ (ls : List Str), (∀ l ∈ ls, wfSkip l = true) → MidOk ls []
+  | [], _ => MidOk.nil
+  | l :: ls, h => by
+    have ih := midOk_skips ls (fun x hx => h x (by simp [hx]))
+    have h1 : MidOk [l] [] := by
+      rcases (skip_facts (h l (by simp))).1 with rfl | ⟨hp, hn⟩
+      · exact MidOk.blank
+      · exact MidOk.skip hp hn
+    simpa using MidOk.append h1 ih
+
+theorem tailOk_skips : ∀ (ls : List Str), (∀ l ∈ ls, wfSkip l = true) → TailOk ls []
+  | [], _ => TailOk.nil
+  | l :: ls, h => by
+    have ih := tailOk_skips ls (fun x hx => h x (by simp [hx]))
+    have h1 : TailOk [l] [] := by
+      rcases (skip_facts (h l (by simp))).1 with rfl | ⟨hp, hn⟩
+      · exact TailOk.blank
+      · exact TailOk.skip hp hn
+    simpa using TailOk.append h1 ih
+
+theorem mem_interleave : ∀ (xs : List Str) (gs : List (List Str)) (l : Str),
+    l ∈ interleave xs gs → l ∈ xs ∨ ∃ g ∈ gs, l ∈ g
+  | [], _, l, h => by simp [interleave] at h
+  | x :: xs, [], l, h => by
+    simp only [interleave, List.mem_cons] at h
+    rcases h with rfl | h
+    · simp
+    · rcases mem_interleave xs [] l h with h | ⟨g, hg, _⟩
+      · exact Or.inl (List.mem_cons_of_mem _ h)
+      · simp at hg
+  | x :: xs, g :: gs, l, h => by
+    simp only [interleave, List.mem_append, List.mem_cons] at h
+    rcases h with h | rfl | h
+    · exact Or.inr ⟨g, by simp, h⟩
+    · simp
+    · rcases mem_interleave xs gs l h with h | ⟨g', hg', hl⟩
+      · exact Or.inl (List.mem_cons_of_mem _ h)
+      · exact Or.inr ⟨g', List.mem_cons_of_mem _ hg', hl⟩
+
+theorem midOk_featLines : ∀ (fs : List FeatLine) (gs : List (List Str)), (∀ f ∈ fs, wfFeatLine f = true) →
+    (∀ g ∈ gs, ∀ l ∈ g, wfSkip l = true) →
+    MidOk (interleave (fs.map (featText false)) gs) (fs.map denoteFeat)
+  | [], _, _, _ => by simpa [interleave] using MidOk.nil
+  | f :: fs, [], h, hg => by
     have hl := featText_line (h f (by simp))
     have h1 := MidOk.feature hl.1 hl.2.1 (parseFeature_featText (h f (by simp)))
-    have h2 := midOk_featBlock fs [] (fun g hg => h g (by simp [hg]))
-    simpa [featBlock] using MidOk.append h1 h2
-  | f :: fs, g :: gs, h => by
+    have h2 := midOk_featLines fs [] (fun x hx => h x (by simp [hx])) hg
+    simpa [interleave] using MidOk.append h1 h2
+  | f :: fs, g :: gs, h, hg => by
     have hl := featText_line (h f (by simp))
     have h1 := MidOk.feature hl.1 hl.2.1 (parseFeature_featText (h f (by simp)))
-    have h2 := midOk_featBlock fs gs (fun g hg => h g (by simp [hg]))
-    have := MidOk.append (MidOk.blanks g) (MidOk.append h1 h2)
-    simpa [featBlock] using this
+    have h2 := midOk_featLines fs gs (fun x hx => h x (by simp [hx])) (fun x hx => hg x (by simp [hx]))
+    have := MidOk.append (midOk_skips g (hg g (by simp))) (MidOk.append h1 h2)
+    simpa [interleave] using this
+
+theorem tailOk_chunks : ∀ (cs : List Str) (gs : List (List Str)), (∀ l ∈ cs, ∀ c ∈ l, seqChar c = true) →
+    (∀ g ∈ gs, ∀ l ∈ g, wfSkip l = true) → TailOk (interleave cs gs) cs.flatten
+  | [], _, _, _ => by simpa [interleave] using TailOk.nil
+  | x :: xs, [], h, hg => by
+    have h1 := TailOk.seqlines [x] (by simpa using h x (by simp))
+    have h2 := tailOk_chunks xs [] (fun l hl => h l (by simp [hl])) hg
+    simpa [interleave] using TailOk.append h1 h2
+  | x :: xs, g :: gs, h, hg => by
+    have h1 := TailOk.seqlines [x] (by simpa using h x (by simp))
+    have h2 := tailOk_chunks xs gs (fun l hl => h l (by simp [hl])) (fun y hy => hg y (by simp [hy]))
+    have := TailOk.append (tailOk_skips g (hg g (by simp))) (TailOk.append h1 h2)
+    simpa [interleave] using this
 
 theorem midOk_directives : ∀ (ds : List Str), (∀ l ∈ ds, wfDirective l = true) → MidOk ds []
   | [], _ => MidOk.nil
@@ -383,31 +450,11 @@ theorem midOk_directives : ∀ (ds : List Str), (∀ l ∈ ds, wfDirective l = t
     have := MidOk.append (MidOk.skip (hasPrefix_hash1_of_hash2 hl.1.1) hl.1.2) (midOk_directives ds (fun x hx => h x (by simp [hx])))
     simpa using this
 
-theorem midOk_comments : ∀ (cs : List Str), (∀ l ∈ cs, wfComment l = true) → MidOk cs []
-  | [], _ => MidOk.nil
-  | l :: cs, h => by
-    have hl := h l (by simp)
-    simp only [wfComment, Bool.and_eq_true, Bool.not_eq_true'] at hl
-    have hne : l ≠ sFasta := by
-      intro e
-      rw [e] at hl
-      exact absurd hl.1.2 (by decide)
-    have := MidOk.append (MidOk.skip hl.1.1 hne) (midOk_comments cs (fun x hx => h x (by simp [hx])))
-    simpa using this
-
-theorem featBlock_noNl : ∀ (fs : List FeatLine) (gaps : List Nat), (∀ f ∈ fs, wfFeatLine f = true) →
-    ∀ l ∈ featBlock fs gaps, '\n' ∉ l
-  | [], _, _, l, hl => by simp [featBlock] at hl
-  | f :: fs, [], h, l, hl => by
-    simp only [featBlock, List.mem_cons] at hl
-    rcases hl with rfl | hl
-    · exact (featText_line (h f (by simp))).2.2
-    · exact featBlock_noNl fs [] (fun g hg => h g (by simp [hg])) l hl
-  | f :: fs, g :: gs, h, l, hl => by
-    simp only [featBlock, List.mem_append, List.mem_cons, List.mem_replicate] at hl
-    rcases hl with ⟨_, rfl⟩ | rfl | hl
-    · simp
-    · exact (featText_line (h f (by simp))).2.2
-    · exact featBlock_noNl fs gs (fun g hg => h g (by simp [hg])) l hl
+theorem joinLines_lf : ∀ (ls : List Str), joinLines ['\n'] ls = joinSep '\n' ls
+  | [] => rfl
+  | [l] => rfl
+  | l :: l' :: ls => by
+    simp only [joinLines, joinSep, joinLines_lf (l' :: ls)]
+    simp
 
 end PolyVerif.Gff
